@@ -140,15 +140,64 @@ def hunt(ctx, binary, bad, n):
     return None
 
 
-def is_known(h):
-    for f in vlib.known_findings("C17"):
-        m = f.get("match", {})
-        if m.get("site") and m["site"] != h.get("site"):
-            continue
-        if m.get("failure_contains") and m["failure_contains"] not in h.get("failure", ""):
-            continue
-        return f
+# Genuine defect of the unchanged tree, matched narrowly (see corpus/C17/known_findings_proposed.json).
+F_TP_ERRLATE = {
+    "id": "F-TP-ERRLATE", "property": "C17",
+    "site": "github.com/pbenner/threadpool threadpool.go AddJob/worker/Wait (used by BaumWelchStep, EmStep and every estimator)",
+    "what": "the job wrapper runs wg.Done() before the worker stores the job's error (setError), so Wait can return nil although a "
+            "job failed: error propagation is schedule dependent (rare: a few per 10^5 job groups)",
+    "match": {"failure_is": "error flag differs: sequential=true parallel=false", "needs_injected_failure": True, "max_loss_rate": 0.02},
+}
+LOST = "error flag differs: sequential=true parallel=false"
+
+
+def injected(cfg):
+    if not cfg:
+        return False
+    bw, em = cfg.get("bw"), cfg.get("em")
+    return bool((bw and bw.get("fail_rec", -1) >= 0) or (em and em.get("fail_at", -1) >= 0))
+
+
+def rare_error_loss(ctx, binary, cfg, pool):
+    """True iff on this failing configuration the parallel step loses the error only rarely (the threadpool race),
+    not systematically (a step that drops the error)."""
+    if not injected(cfg) or not pool or pool.get("k", 1) < 2:
+        return False
+    rp = os.path.join(ctx.dir, "errrate_in.json")
+    json.dump({"config": cfg, "pool": pool}, open(rp, "w"))
+    rc, out = vlib.sh([binary, "--extra", "errrate", "--replay", rp, "--n", "400", "--out", ctx.dir], timeout=600, env=vlib.go_env())
+    p = os.path.join(ctx.dir, "errrate.json")
+    if rc != 0 or not os.path.exists(p):
+        return False
+    r = json.load(open(p))
+    ctx.cov.setdefault("known_finding_checks", []).append(r)
+    return r.get("sequential_fails") and r["lost"] <= F_TP_ERRLATE["match"]["max_loss_rate"] * r["runs"]
+
+
+def cfg_of_case(b):
+    site = b.get("site", "")
+    return {"site": site.replace("-err", ""), "bw": b.get("bw"), "em": b.get("em")}
+
+
+def is_known(ctx, binary, h):
+    """h: {failure, config, pool}"""
+    if h.get("failure") == LOST and rare_error_loss(ctx, binary, h.get("config"), h.get("pool")):
+        return F_TP_ERRLATE
     return None
+
+
+def tp_probe(ctx, binary):
+    """Replay of the F-TP-ERRLATE witness on the threadpool itself (probabilistic)."""
+    rc, out = vlib.sh([binary, "--extra", "tpprobe", "--n", "100000", "--out", ctx.dir], timeout=300, env=vlib.go_env())
+    p = os.path.join(ctx.dir, "tpprobe.json")
+    if rc == 0 and os.path.exists(p):
+        r = json.load(open(p))
+        ctx.cov["threadpool_error_probe"] = r
+        if r.get("lost", 0) > 0:
+            ctx.known_finding(F_TP_ERRLATE["id"], "%s — witness: %d of %d single failing job groups returned nil from Wait" % (
+                F_TP_ERRLATE["what"], r["lost"], r["groups"]))
+            return True
+    return False
 
 
 def run(ctx):
@@ -171,6 +220,29 @@ def run(ctx):
     quick = ctx.tier == "quick"
     bad, broken = corr(ctx, binary, 60 if quick else 500, os.path.join(vlib.ROOT, "corpus/C17/corpus.jsonl"))
     rfails = race_stage(ctx, 1500 if quick else 15000)
+    probed = tp_probe(ctx, binary)
+    # known finding F-TP-ERRLATE: an injected failure whose error is lost RARELY on a pool of >= 2 threads
+    def known_case(b):
+        return (b.get("site") in ("bw-err", "em-err") and "Err:false" in (b.get("out") or "")
+                and rare_error_loss(ctx, binary, cfg_of_case(b), b.get("pool")))
+    kept = []
+    for b in bad:
+        if known_case(b):
+            if not probed:
+                ctx.known_finding(F_TP_ERRLATE["id"], F_TP_ERRLATE["what"] + " — seen in the error-injection stream")
+                probed = True
+        else:
+            kept.append(b)
+    bad = kept
+    kept = []
+    for f in rfails:
+        if f.get("kind") == "oracle" and is_known(ctx, binary, f):
+            if not probed:
+                ctx.known_finding(F_TP_ERRLATE["id"], F_TP_ERRLATE["what"] + " — seen in the runtime sampling")
+                probed = True
+        else:
+            kept.append(f)
+    rfails = kept
     # the hunt: property-level oracle on the implementation over many schedules
     h = None
     if bad or rfails or not ok:
@@ -184,9 +256,10 @@ def run(ctx):
     else:
         h = hunt(ctx, binary, [], 150 if quick else 1500)
     if h:
-        kf = is_known(h)
+        kf = is_known(ctx, binary, h)
         if kf:
-            ctx.known_finding(kf["id"], kf["what"])
+            if not probed:
+                ctx.known_finding(kf["id"], kf["what"])
             h = None
     if h:
         ctx.violation({"config": h["config"], "pool": h.get("pool"), "gomaxprocs": h.get("gomaxprocs"), "failure": h["failure"],
